@@ -22,6 +22,7 @@ META = {
         "the message itself. Not decided: freshness under interleaving as a trace property."
     ),
 }
+META["explanation"] += ' C14.R4 is decided on the key paths of every store. C14.R5: the message handed to the value reader is a keyed lookup or max() over all candidates. C14.R6: decision table of the expiry update chain - every non-RQ 1F09 uses the payload countdown. C14.R7: no entity property reads <Message>.payload (or an attribute caching a payload) without an _expired test.'
 
 EB = "ramses_rf.entity_base"
 M = "ramses_tx.message"
